@@ -363,7 +363,8 @@ def r5_overlap(m):
 
 
 def run(m, tier):
-    results = [r1_table(m), r2_engine(m), r3_regex(m, tier), r4_exponent(m), r5_overlap(m)]
+    from rules import engine_tables
+    results = [r1_table(m), r2_engine(m), r3_regex(m, tier), r4_exponent(m), r5_overlap(m), engine_tables.unary_rule(m, "C03.R6")]
     expl = ("Decides structural clauses of C03: the 12-level expression table extracted from the match methods equals the standard's "
             "(operator, operand classes, split side, fall-through; Parenthesis wraps Expr under Primary); the generic binary engine, "
             "specialised for right=True/False, reaches a match only after the rightmost/leftmost split and builds each operand from its "
